@@ -18,6 +18,7 @@ def _a_callable():
     return None
 
 
+DEFNAMES = ["z0", "y1", "x2", "w3"]  # defaulted parameters: declaration order is NOT the alphabetical one
 PYC = {"i1": 1, "bT": True, "f1": 1.0, "i0": 0, "bF": False, "f0": 0.0, "fn": _a_callable}
 
 
@@ -85,7 +86,7 @@ def gen_prog(rng, name="p", depth=0, max_stmts=8, fid_base=0, p_flag=0.2, p_sub=
     ctr[0] += 10
     nreq = rng.randint(0, 2)
     ndef = rng.choice([0, 1, 2, 2, 3]) if depth > 0 else rng.randint(0, 2)
-    params = [dict(name="a%d" % i, default=None) for i in range(nreq)] + [dict(name="d%d" % i, default=("NONE" if rng.random() < (0.3 if depth > 0 else 0.12) else [rng.randrange(50), rng.random() < 0.6])) for i in range(ndef)]
+    params = [dict(name="a%d" % i, default=None) for i in range(nreq)] + [dict(name=DEFNAMES[i], default=("NONE" if rng.random() < (0.3 if depth > 0 else 0.12) else [rng.randrange(50), rng.random() < 0.6])) for i in range(ndef)]
     nst = rng.randint(1, max_stmts)
     stmts = []
     vinfo = []
